@@ -1,4 +1,4 @@
-import Refine.Lemmas.FormatsText
+import Refine.Lemmas.FormatsRoundtrip
 
 /-!
   C08 — mesh files round-trip: the TEXT formats that refine both writes and reads (ASCII `.ugrid`, `.tri`, `.fgrid`,
@@ -12,6 +12,30 @@ import Refine.Lemmas.FormatsText
 namespace Refine.Props.C08Formats
 open Refine.Model.Formats Refine.Lemmas.Formats
 open Refine.Model.Meshb (Status Vertex)
+
+/-! ### round trips, every mesh the format holds -/
+
+/-- **roundtrip_ugrid_txt**: ref_import_ugrid of what ref_export_ugrid writes is the mesh with its boundary faces in the
+    writer's order (stable by id: the `faceid = min..max` sweep), for every mesh of triangles / quads with ids and tets /
+    pyramids / prisms / hexes whose vertices exist (`UgridOk`; at most 2^28 - 200 vertices) — vertices bit for bit,
+    cells with orientation and ids -/
+theorem roundtrip_ugrid_txt (m : TMesh) (h : UgridOk m) :
+    decodeUgridTxt (encodeUgridTxt m) = .ok (normalizeUgrid m) := decodeUgridTxt_encodeUgridTxt m h
+
+/-- **roundtrip_tri**: `.tri` (reader as in /repo and with the proposed repairs alike) -/
+theorem roundtrip_tri (fx : Fix) (m : TMesh) (h : TriOk m) : decodeTri fx (encodeTri m) = .ok (normalizeTri m) :=
+  decodeTri_encodeTri fx m h
+
+/-- **roundtrip_fgrid**: `.fgrid` (coordinates stored column by column) -/
+theorem roundtrip_fgrid (fx : Fix) (m : TMesh) (h : FgridOk m) :
+    decodeFgrid fx (encodeFgrid m) = .ok (normalizeFgrid m) := decodeFgrid_encodeFgrid fx m h
+
+/-- the normal form only reorders boundary faces: same triangles, same quads -/
+theorem normalizeUgrid_perm (m : TMesh) :
+    (normalizeUgrid m).tri.Perm m.tri ∧ (normalizeUgrid m).qua.Perm m.qua ∧ (normalizeUgrid m).tet = m.tet ∧
+    (normalizeUgrid m).pyr = m.pyr ∧ (normalizeUgrid m).pri = m.pri ∧ (normalizeUgrid m).hex = m.hex ∧
+    (normalizeUgrid m).nodes = m.nodes :=
+  ⟨List.mergeSort_perm _ _, List.mergeSort_perm _ _, rfl, rfl, rfl, rfl, rfl⟩
 
 /-! ### node orders -/
 
@@ -78,6 +102,22 @@ theorem su2_tags_counterexample :
     volume cells together -/
 def sampleMesh : TMesh :=
   { TMesh.empty with nodes := verts4, tri := [[0, 1, 2, 2], [1, 2, 3, 1]], tet := [[0, 1, 2, 3]] }
+
+/-- non-vacuity of `roundtrip_ugrid_txt` / `roundtrip_tri` / `roundtrip_fgrid`: the sample mesh meets their hypotheses -/
+example : UgridOk sampleMesh ∧ TriOk sampleMesh ∧ FgridOk sampleMesh := by
+  have hmem : ∀ c ∈ sampleMesh.tri, c = [0, 1, 2, 2] ∨ c = [1, 2, 3, 1] := by
+    intro c hc; simpa [sampleMesh] using hc
+  have htet : ∀ c ∈ sampleMesh.tet, c = [0, 1, 2, 3] := by
+    intro c hc; simpa [sampleMesh] using hc
+  have htri : ∀ c ∈ sampleMesh.tri, c.length = 4 ∧ (∀ x ∈ c.take 3, 0 ≤ x ∧ x < (sampleMesh.nodes.length : Int)) ∧
+      Refine.Model.Meshb.int32 (c.getD 3 0) := by
+    intro c hc
+    rcases hmem c hc with rfl | rfl <;> decide
+  have htets : ∀ c ∈ sampleMesh.tet, c.length = 4 ∧ (∀ x ∈ c.take 4, 0 ≤ x ∧ x < (sampleMesh.nodes.length : Int)) := by
+    intro c hc
+    rw [htet c hc]; decide
+  refine ⟨⟨by decide, htri, ?_, htets, ?_, ?_, ?_, by decide⟩, ⟨by decide, htri, by decide⟩,
+    ⟨by decide, htri, htets, by decide, by decide⟩⟩ <;> (intro c hc; simp [sampleMesh, TMesh.empty] at hc)
 
 theorem sample_roundtrips :
     decodeTri Fix.none (encodeTri sampleMesh) = .ok (normalizeTri sampleMesh) ∧
